@@ -81,13 +81,33 @@ pub fn arith_case<F: FElem>(prop: &str, conf: Confidence, xs: &[F]) -> String {
         let r = Arithmetic::<F>::from_iter(&v[a..].to_vec()).unwrap();
         enc_cires(&(l + r).ci_mean(conf))
     });
+    // a container with gaps (inexact size hint) through ci / from_iter / extend
+    let o8 = guarded(|| {
+        let sp = Sparse::of(&v, 3);
+        let a = enc_cires(&Arithmetic::<F>::ci(conf, &sp));
+        let bq = match Arithmetic::<F>::from_iter(&sp) {
+            Ok(s) => enc_cires(&s.ci_mean(conf)),
+            Err(e) => enc_cierr(&e),
+        };
+        let mut s3 = Arithmetic::<F>::new();
+        StatisticsOps::extend(&mut s3, &sp).unwrap();
+        let c = enc_cires(&s3.ci_mean(conf));
+        if a == bq && bq == c { a } else { format!("styles-differ {} / {} / {}", a, bq, c) }
+    });
+    // two partial states merged with `+=`
+    let o9 = guarded(|| {
+        let a = v.len() / 3;
+        let mut l = Arithmetic::<F>::from_iter(&v[..a].to_vec()).unwrap();
+        l += Arithmetic::<F>::from_iter(&v[a..].to_vec()).unwrap();
+        enc_cires(&l.ci_mean(conf))
+    });
     let st = guarded(|| {
         let mut s = Arithmetic::<F>::new();
         StatisticsOps::extend(&mut s, &v).unwrap();
         stats_line(&s)
     });
     format!(
-        "{} arith {} {} {} => {} | {} | {} | {} | {} | {} | {} | {}",
+        "{} arith {} {} {} => {} | {} | {} | {} | {} | {} | {} | {} | {} | {}",
         prop,
         F::TAG,
         enc_conf(&conf),
@@ -99,6 +119,8 @@ pub fn arith_case<F: FElem>(prop: &str, conf: Confidence, xs: &[F]) -> String {
         o5,
         o6,
         o7,
+        o8,
+        o9,
         st
     )
 }
@@ -411,9 +433,11 @@ pub fn paired_case<F: FElem>(prop: &str, conf: Confidence, xs: &[F], ys: &[F]) -
         }
         enc_cires(&Arithmetic::<F>::ci(conf, &diffs))
     });
+    // two series with gaps (different paddings: the size hints differ although the numbers of observations need not)
+    let sp = guarded(|| enc_cires(&Paired::<F>::ci(conf, &Sparse::of(&a, 2), &Sparse::of(&b, 5))));
     format!(
-        "{} paired {} {} {} {} => {} | {} | {} | {} | {} | {}",
-        prop, F::TAG, enc_conf(&conf), enc_list(&a), enc_list(&b), o1, o2, o3, o4, st, ar
+        "{} paired {} {} {} {} => {} | {} | {} | {} | {} | {} | {}",
+        prop, F::TAG, enc_conf(&conf), enc_list(&a), enc_list(&b), o1, o2, o3, o4, st, ar, sp
     )
 }
 
@@ -451,11 +475,12 @@ pub fn unpaired_case<F: FElem>(prop: &str, conf: Confidence, xs: &[F], ys: &[F])
         s.extend(&a, &b).unwrap();
         enc_cires(&s.ci_mean(conf))
     });
+    let o7 = guarded(|| enc_cires(&Unpaired::<F>::ci(conf, &Sparse::of(&a, 1), &Sparse::of(&b, 6))));
     // exchanging the two samples (with the flipped confidence) must mirror the interval
     let sw = guarded(|| enc_cires(&Unpaired::<F>::ci(conf.flipped(), &b, &a)));
     format!(
-        "{} unpaired {} {} {} {} => {} | {} | {} | {} | {} | {} | {}",
-        prop, F::TAG, enc_conf(&conf), enc_list(&a), enc_list(&b), o1, o2, o3, o4, o5, o6, sw
+        "{} unpaired {} {} {} {} => {} | {} | {} | {} | {} | {} | {} | {}",
+        prop, F::TAG, enc_conf(&conf), enc_list(&a), enc_list(&b), o1, o2, o3, o4, o5, o6, o7, sw
     )
 }
 
@@ -495,6 +520,29 @@ pub fn c04(out: &mut Vec<String>, rng: &mut Rng, tier: &str) {
         let (xs, ys) = if na > nb { (quiet(rng, na), noisy(rng, nb)) } else { (noisy(rng, na), quiet(rng, nb)) };
         if tier == "thorough" || na + nb < 101_000 {
             out.push(unpaired_case::<f64>("C04", rand_conf(rng), &xs, &ys));
+        }
+    }
+    // exactly equal sample means (a sample against a permutation of itself, integer data of equal mean, constants)
+    for n in [2usize, 3, 7, 12] {
+        let xs: Vec<f64> = (0..n).map(|_| rng.range(-9, 9) as f64).collect();
+        let ys: Vec<f64> = xs.iter().rev().cloned().collect();
+        out.push(unpaired_case::<f64>("C04", rand_conf(rng), &xs, &ys));
+        let zs: Vec<f64> = xs.iter().map(|x| 2.0 * xs.iter().sum::<f64>() / n as f64 - x).collect();
+        out.push(unpaired_case::<f64>("C04", rand_conf(rng), &xs, &zs));
+        let xf: Vec<f32> = xs.iter().map(|x| *x as f32).collect();
+        let yf: Vec<f32> = ys.iter().map(|x| *x as f32).collect();
+        out.push(unpaired_case::<f32>("C04", rand_conf(rng), &xf, &yf));
+        out.push(unpaired_case::<f64>("C04", rand_conf(rng), &vec![4.0; n], &vec![4.0; n + 1]));
+    }
+    // f32 data of magnitudes whose fourth powers are outside the f32 range (1e-12, 1e10) and f64 data far out
+    for (sc32, sc64) in [(1e-12f64, 1e-70f64), (1e10, 1e70), (3e-11, 1e-60), (1e-9, 1e60)] {
+        for (na, nb) in [(3usize, 4usize), (2, 2), (7, 3)] {
+            let xs: Vec<f64> = (0..na).map(|_| 1.0 + rng.unit()).collect();
+            let ys: Vec<f64> = (0..nb).map(|_| 0.5 + 2.0 * rng.unit()).collect();
+            let (x32, y32): (Vec<f32>, Vec<f32>) = (xs.iter().map(|x| (x * sc32) as f32).collect(), ys.iter().map(|x| (x * sc32) as f32).collect());
+            out.push(unpaired_case::<f32>("C04", rand_conf(rng), &x32, &y32));
+            let (x64, y64): (Vec<f64>, Vec<f64>) = (xs.iter().map(|x| x * sc64).collect(), ys.iter().map(|x| x * sc64).collect());
+            out.push(unpaired_case::<f64>("C04", rand_conf(rng), &x64, &y64));
         }
     }
     // balanced samples (equal sizes, equal spreads: the second is a shifted, reversed copy of the first):
@@ -666,6 +714,11 @@ pub fn c11(out: &mut Vec<String>, rng: &mut Rng, tier: &str) {
             let cls = if k > n { "InvalidSuccesses" } else if k < 2 { "TooFewSuccesses" } else if n - k < 2 { "TooFewFailures" } else { "sane" };
             out.push(expect(cls, format!("C11 {}", prop_ops::nk_line_pub(conf, n, k))));
         }
+        // the success-ratio form with a rate that implies more successes than the population (and +inf)
+        for (n, r) in [(100usize, 1.006f64), (10, 1.5), (7, f64::INFINITY), (1, 3.0)] {
+            let o = guarded(|| enc_cires(&stats_ci::proportion::ci_wilson_ratio(conf, n, r)));
+            out.push(expect("InvalidSuccesses", format!("C11 ratio p {} {} {} - => {}", enc_conf(&conf), n, r.enc(), o)));
+        }
         // quantiles: q outside (0,1), NaN; too few samples
         for q in [0.0f64, 1.0, -0.1, 1.1, f64::NAN, f64::INFINITY] {
             for n in [0usize, 3, 8, 50] {
@@ -673,6 +726,13 @@ pub fn c11(out: &mut Vec<String>, rng: &mut Rng, tier: &str) {
             }
             let data: Vec<i64> = (1..=8).collect();
             out.push(expect("InvalidQuantile", prop_ops::qci_i64_pub("C11", conf, q, &data)));
+        }
+        // finite data that are not in ascending order: every entry point returns an interval with low <= high
+        // (or InvalidBounds from the pre-sorted entry point), never an Ok with inverted bounds
+        for mode in 0..3usize {
+            for (n, q) in [(15usize, 0.5f64), (40, 0.2), (9, 0.7)] {
+                out.push(expect("ok", prop_ops::qci_unsorted_pub("C11", conf, q, n, mode)));
+            }
         }
         // NaN inside otherwise ascending data: the documented panic, never an Ok with a NaN bound
         for pos in [0usize, 4, 7, 11, 14] {
